@@ -52,6 +52,7 @@ def run(ctx):
     try:
         prim, sec = c01_dict.regenerate()
         ctx.ties["translator:c01_dict"] = "ok"
+        ctx.coverage["dictionary_translator_path"] = getattr(c01_dict.read_tables, "last_path", "?")
     except Exception as e:
         ctx.ties["translator:c01_dict"] = "broken: %s" % e
         prim = sec = None
